@@ -252,6 +252,9 @@ class StmtMixin(object):
       return [from_u(st.heap.item(v.t, z3.IntVal(i)), v.ty.elem, st) for i in range(n)]
     if isinstance(v, VRef) and v.ty.kind == 'tuple':
       return from_u(v.t, v.ty, st).items
+    if getattr(self, 'mode', 'vc') == 'event' and isinstance(v, VRef) and v.ty.kind in ('any', 'union', 'opt'):
+      # an opaque value: its components are (uninterpreted) functions of it, the same in both programs
+      return [VRef(ufn('unpack!%d!%d' % (n, i), U, U)(v.t), ANY) for i in range(n)]
     raise Unsupported('unpacking %r' % (v,))
 
   def store_attr(self, base, attr, v, st):
@@ -301,6 +304,12 @@ class StmtMixin(object):
           yield 'normal', st2, None
         else:
           yield 'raise', st2, Exc('IndexError')
+    elif getattr(self, 'mode', 'vc') == 'event' and isinstance(base, VRef) and base.ty.kind in ('any', 'opt', 'union', 'obj', 'callable'):
+      for st2, r in self.call_opaque(VBound(base, '__setitem__'), [idx, v], {}, st):
+        if isinstance(r, Exc):
+          yield 'raise', st2, r
+        else:
+          yield 'normal', st2, None
     else:
       raise Unsupported('subscript store on %r' % (base,))
 
@@ -497,8 +506,14 @@ class StmtMixin(object):
 
   def _with_exit(self, cm, kind, st, v):
     if kind == 'raise':
-      a = VRef(fresh('exctype', U), ANY)
-      args = [a, v.payload if v.payload is not None else VRef(fresh('excval', U), ANY), VRef(fresh('tb', U), ANY)]
+      def nm(hint):
+        if getattr(st, 'event_mode', False):
+          # event mode: both programs must agree on the names of what the interpreter supplies
+          st.withidx = getattr(st, 'withidx', 0) + 1
+          return z3.Const('%s!%s@%d' % (hint, st.seg, st.withidx), U)
+        return fresh(hint, U)
+      a = VRef(nm('exctype'), ANY)
+      args = [a, v.payload if v.payload is not None else VRef(nm('excval'), ANY), VRef(nm('tb'), ANY)]
       st.assume(a.t != NONE)
     else:
       args = [VNone, VNone, VNone]
